@@ -19,6 +19,8 @@ CLAIMED["C14"] = ("proof", "Absence of shared mutable state and ambient input is
          "interprocedural effect/provenance analysis on go/ssa (allocation-site classes, fixpoint over call sites)")
 CLAIMED["C15"] = ("other", "Provenance of every cut offset in SplitStatements with path facts (only Span.Start/End of tokens known to be TokenSemi from Scan of the same string), tail piece unconditional, Parse's splitter tests the same kind on the same scan. That a piece scanned alone yields the same tokens depends on every lexer look-ahead and is not decided.", "DESIGN.md §3 C15",
          "value-provenance rule with path facts (AST abstract interpreter)")
+CLAIMED["C10"] = ("other", "Completeness of all per-node Span() unions against the struct definitions, provenance class of every recorded span (token span / nullSpan / union of token bounds / copy), error-position safety and the shape of every source slice by span. Exactness of each position on every input is a runtime quantity and is not decided.", "DESIGN.md §3 C10",
+         "exhaustiveness check over go/types struct fields + syntactic provenance classes of span values")
 NA = {}
 def main():
     props = [json.loads(l) for l in open('/verif/properties.jsonl')]
